@@ -704,6 +704,19 @@ _process_request_(struct qb_ipcs_connection *c, int32_t ms_timeout)
 			    c->description);
 		res = -ESHUTDOWN;
 		goto cleanup;
+	} else if (size < (ssize_t)sizeof(*hdr) ||
+		   size > c->request.max_msg_size ||
+		   hdr->size < (int32_t)sizeof(*hdr) || hdr->size > size) {
+		/*
+		 * Larger than the negotiated maximum (a shared-memory ring
+		 * holds a little more than that), or the header claims more
+		 * than we received (or less than a header): never hand such
+		 * a length to msg_process.
+		 */
+		qb_util_log(LOG_ERR,
+			    "malformed request: header says %d bytes, got %zd (%s)",
+			    hdr->size, size, c->description);
+		res = -EINVAL;
 	} else {
 		c->stats.requests++;
 		res = c->service->serv_fns.msg_process(c, hdr, hdr->size);
